@@ -7,8 +7,12 @@ from harness import c02
 PROPERTY = "C11"
 RULE = ("(stream filtered_race: the filtered track run to completion on the simulator, see claims) schedules of 1-6 elements (leaf tasks / parallels of 1-4 tasks; names, 4 operation types, 0-2 tags) x include|exclude lists of 0-3 "
         "filters (name, type:, tag:, malformed) biased to match all / some / none of a parallel; signature = model branch tags + mode; "
-        "non-trivial = at least one filter and at least one parallel or two elements")
-TRUSTED = ["list.remove(first equal element) is modelled as filtering; equivalent when task names are distinct (loader rule)"]
+        "non-trivial = at least one filter and at least one parallel or two elements; stream spec_filter: raw specifications (operations block, plain / inline "
+        "operations whose names and types come from one pool incl. `-`/`_` twins of built-in types, 1-3 challenges on one reader) x filter lists biased to "
+        "type: filters, plus every type of the track and its other spelling as the only filter")
+TRUSTED = ["list.remove(first equal element) is modelled as filtering; equivalent when task names are distinct (loader rule; proved for read tracks: "
+           "read_challenge_has_distinct_task_names)",
+           "of TrackSpecificationReader only what decides a task's name / operation type / tags is modelled (loop-control validation, completed-by, parameters: exercised)"]
 ASSUMPTIONS = ["task names are distinct within a challenge"]
 
 OPTYPES = ["bulk", "search", "force-merge", "index-stats"]
@@ -554,8 +558,269 @@ def run_prepare(ctx, case):
         shutil.rmtree(root, ignore_errors=True)
 
 
+# ---------------------------------------------------------------------------------------------
+# reader + filter on RAW SPECIFICATIONS: what a filter sees of a task (name, operation type, tags) is decided one call before the
+# filter, in TrackSpecificationReader (parse_operations / parse_operation / parse_task / parse_parallel).  Specifications with an
+# `operations` block, plain references to block entries, plain references to built-in operations, inline operations with and
+# without a name — names and types drawn from ONE pool, so that an inline operation or a block entry is regularly named like a
+# built-in type (or like another operation) while being of another type — one to three challenges read by ONE reader, and
+# operation types that differ only in `-` / `_` / case from a built-in one.  The expectation comes from the specification alone.
+# ---------------------------------------------------------------------------------------------
+SPEC_BUILTIN = ["bulk", "search", "force-merge", "index-stats", "node-stats", "cluster-health", "refresh", "raw-request", "create-index", "sleep"]
+SPEC_CUSTOM = ["ml_inference", "ml-inference", "Search", "force--merge", "cluster health"]
+SPEC_OPNAMES = ["op-a", "op-b", "my-search", "wait-for-green"]
+
+
+def _respell(t):
+    """the other spelling of a type: `-` <-> `_`"""
+    return t.replace("-", "_") if "-" in t else t.replace("_", "-")
+
+
+def gen_spec_case(rng):
+    builtin = rng.sample(SPEC_BUILTIN, rng.randint(2, 4))
+    types = list(builtin)
+    for b in builtin:
+        if "-" in b and rng.random() < 0.5:
+            types.append(_respell(b))       # a user-provided type spelled like a built-in one, `_` for `-`
+    types += rng.sample(SPEC_CUSTOM, rng.randint(0, 2))
+    names = types + rng.sample(SPEC_OPNAMES, rng.randint(1, 3))   # operation NAMES come from the types as well
+    block, block_names = [], []
+    for _ in range(rng.choice([0, 1, 2, 2, 3])):
+        r = rng.random()
+        if r < 0.1:
+            e = rng.choice(types)                                   # an entry that is just a string
+            n = e
+        elif r < 0.3:
+            e = {"operation-type": rng.choice(types)}              # no name: named like its type
+            n = e["operation-type"]
+        else:
+            n = rng.choice(names)
+            e = {"name": n, "operation-type": rng.choice(types)}
+        if n in block_names and rng.random() < 0.9:
+            continue                                                # (rarely) a duplicate entry stays: the reader must refuse it
+        block.append(e)
+        block_names.append(n)
+    nid = [0]
+    inline_names = []
+
+    def task(taken):
+        nid[0] += 1
+        r = rng.random()
+        if r < 0.45:
+            pool = block_names + builtin + inline_names + types
+            op = rng.choice(pool)                                   # plain string: block entry, built-in, or the name of an inline operation elsewhere
+            opname = op
+        elif r < 0.8:
+            op = {"name": rng.choice(names), "operation-type": rng.choice(types)}
+            opname = op["name"]
+            inline_names.append(opname)
+        else:
+            op = {"operation-type": rng.choice(types)}
+            opname = op["operation-type"]
+        t = {"id": nid[0], "op": op, "tags": rng.sample(TAGS, rng.choice([0, 0, 1, 1, 2])), "tagstr": rng.random() < 0.5}
+        if rng.random() < 0.5 or (opname in taken and rng.random() < 0.95):
+            t["name"] = f"t{nid[0]}"
+        taken.add(t.get("name", opname))
+        return t
+
+    challenges = []
+    for _ in range(rng.choice([1, 2, 2, 3])):
+        taken, sched = set(), []
+        for _ in range(rng.randint(1, 5)):
+            if rng.random() < 0.55:
+                sched.append({"leaf": task(taken)})
+            else:
+                sched.append({"par": [task(taken) for _ in range(rng.randint(1, 3))], "payload": rng.choice([0, 0, rng.randint(1, 9)])})
+        challenges.append(sched)
+    case = {"operations": block, "challenges": challenges, "exclude": rng.random() < 0.5}
+    decl = [_declared(case, t) for c in challenges for t in _spec_leaves(c)]
+    in_use = sorted({ty for _, ty in decl})
+    fl = []
+    mode = rng.choice(["types", "types", "types", "mixed", "mixed", "names", "none", "malformed", "empty"])
+    if mode == "types":
+        cand = in_use + [_respell(t) for t in in_use if _respell(t) != t] + types
+        fl = ["type:" + x for x in rng.sample(cand, min(len(cand), rng.randint(1, 2)))]
+    elif mode == "mixed":
+        for _ in range(rng.randint(1, 3)):
+            fl.append(rng.choice([rng.choice(decl)[0], "type:" + rng.choice(in_use), "type:" + _respell(rng.choice(in_use)), "tag:" + rng.choice(TAGS)]))
+    elif mode == "names":
+        fl = [n for n, _ in rng.sample(decl, min(len(decl), rng.randint(1, 3)))]
+    elif mode == "none":
+        fl = [rng.choice(["nosuchtask", "type:nosuchtype", "tag:nosuchtag"])]
+    elif mode == "malformed":
+        fl = [rng.choice(["foo:bar", "type:bulk:x", "name:t1"]), "type:" + rng.choice(in_use)]
+        rng.shuffle(fl)
+    case["filters"] = fl
+    return case
+
+
+def _spec_leaves(sched):
+    return [t for e in sched for t in ([e["leaf"]] if "leaf" in e else e["par"])]
+
+
+def _declared(case, t):
+    """(task name, operation type) of a task as the SPECIFICATION says: a plain string is the entry of the `operations` block of
+    that name if there is one, else the built-in / user-provided operation of that type; an inline operation is what it states"""
+    op = t["op"]
+    if isinstance(op, str):
+        for b in case["operations"]:
+            bn = b if isinstance(b, str) else b.get("name", b["operation-type"])
+            if bn == op:
+                return t.get("name", bn), (b if isinstance(b, str) else b["operation-type"])
+        return t.get("name", op), op
+    return t.get("name", op.get("name", op["operation-type"])), op["operation-type"]
+
+
+def gen_spec(ctx):
+    for _ in range(ctx.budget):
+        yield gen_spec_case(ctx.rng)
+
+
+def _raw_spec(case):
+    import copy
+
+    def mk(t):
+        d = {"operation": copy.deepcopy(t["op"]), "clients": 1 + t["id"] % 3, "iterations": t["id"]}
+        if "name" in t:
+            d["name"] = t["name"]
+        if t["tags"]:
+            d["tags"] = _tags(t)
+        return d
+
+    chs = []
+    for i, sched in enumerate(case["challenges"]):
+        out = []
+        for e in sched:
+            if "leaf" in e:
+                out.append(mk(e["leaf"]))
+            else:
+                par = {"tasks": [mk(t) for t in e["par"]]}
+                if e["payload"]:
+                    par["clients"] = e["payload"]
+                out.append({"parallel": par})
+        chs.append({"name": f"c{i}", "default": i == 0, "schedule": out})
+    spec = {"description": "d", "indices": [{"name": "i"}], "challenges": chs}
+    if case["operations"]:
+        spec["operations"] = copy.deepcopy(case["operations"])
+    return spec
+
+
+def _read_spec(case):
+    """the real reader on the raw specification -> list of challenges (or the class of the error)"""
+    from esrally.track import loader
+
+    try:
+        trk = loader.TrackSpecificationReader()("t", _raw_spec(case), "/mappings")
+    except loader.TrackSyntaxError:
+        return None, "TrackSyntaxError"
+    for sched, ch in zip(case["challenges"], trk.challenges):
+        for e, obj in zip(sched, ch.schedule):
+            if "par" in e:
+                obj._case_payload = e["payload"]
+    return trk, None
+
+
+def _model_spec_args(case, filters, exclude):
+    def opref(op):
+        return {"plain": op} if isinstance(op, str) else {"name": op.get("name"), "type": op["operation-type"]}
+
+    def ts(t):
+        return {"id": t["id"], "name": t.get("name"), "op": opref(t["op"]), "tags": _tags(t) if t["tags"] else None}  # as written: one string, a list, or absent
+
+    return {"operations": [opref(b) for b in case["operations"]],
+            "challenges": [[({"leaf": ts(e["leaf"])} if "leaf" in e else {"par": [ts(t) for t in e["par"]], "payload": e["payload"]}) for e in c]
+                           for c in case["challenges"]],
+            "exclude": exclude, "filters": filters}
+
+
+def _spec_matches(case, t, filters):
+    name, typ = _declared(case, t)
+    for f in filters:
+        sp = f.split(":")
+        if (len(sp) == 1 and sp[0] == name) or (len(sp) == 2 and sp[0] == "type" and sp[1] == typ) or (len(sp) == 2 and sp[0] == "tag" and sp[1] in t["tags"]):
+            return True
+    return False
+
+
+def _spec_filter_once(ctx, case, filters, exclude, what):
+    """fresh read by the real reader, real processor with `filters`; direct oracle from the specification.
+    Returns (trk or None, error class or None)."""
+    from esrally import exceptions
+    from esrally.track import loader
+
+    trk, e = _read_spec(case)
+    if e:
+        return None, e
+    try:
+        loader.TaskFilterTrackProcessor(Cfg(None, filters) if exclude else Cfg(filters, None)).on_after_load_track(trk)
+    except exceptions.SystemSetupError:
+        return None, "SystemSetupError"
+    for ci, (sched, ch) in enumerate(zip(case["challenges"], trk.challenges)):
+        expect = [t["id"] for t in _spec_leaves(sched) if _spec_matches(case, t, filters) != exclude]
+        got = [t.iterations for el in ch.schedule for t in el]
+        mode = "--exclude-tasks=" if exclude else "--include-tasks="
+        if got != expect:
+            ctx.fail("spec:wrong-tasks" + what, f"challenge {ci} of a track read from its specification, {mode}{','.join(filters)}: the remaining leaf tasks are not "
+                     "exactly the tasks the specification selects, in their order", expect, got)
+        decl = {t["id"]: _declared(case, t) for t in _spec_leaves(sched)}
+        for el in ch.schedule:
+            for t in el:
+                if (t.name, t.operation.type) != decl[t.iterations]:
+                    ctx.fail("spec:task-changed" + what, "a remaining task has another name / operation type than its specification says",
+                             [t.iterations, list(decl[t.iterations])], [t.iterations, t.name, t.operation.type])
+        if any(hasattr(el, "tasks") and len(el.tasks) == 0 for el in ch.schedule):
+            ctx.fail("spec:empty-parallel" + what, "filtered schedule contains an empty parallel element", "no empty parallel", canon(ch.schedule))
+    return trk, None
+
+
+def run_spec(ctx, case):
+    filters, exclude = case["filters"], case["exclude"]
+    m = ctx.model("trackfilter", "read_filter", _model_spec_args(case, filters, exclude))
+    tags = m.get("tags", [])
+    # ---- the reader alone, against the model of the reader
+    block_names = [b if isinstance(b, str) else b.get("name", b["operation-type"]) for b in case["operations"]]
+    readable = len(set(block_names)) == len(block_names) and all(
+        len({_declared(case, t)[0] for t in _spec_leaves(c)}) == len(_spec_leaves(c)) for c in case["challenges"])
+    trk, e = _read_spec(case)
+    if (e is None) != readable:
+        ctx.fail("spec:reader-verdict", "the reader accepts / refuses a specification against the rule (names of operations distinct, task names distinct "
+                 "within a challenge)", "readable" if readable else "TrackSyntaxError", e or "read")
+    if e:
+        if m.get("err") != e:
+            ctx.diff("reading a specification", m.get("err", "ok"), e)
+        ctx.sig(["spec", tags, e], nontrivial=False)
+        return
+    read_impl = [[[t.iterations, t.name, t.operation.type] for el in ch.schedule for t in el] for ch in trk.challenges]
+    if m.get("err") == "TrackSyntaxError":
+        ctx.diff("reading a specification", "TrackSyntaxError", read_impl)
+        return
+    # ---- reader + processor
+    if not filters:
+        from esrally.track import loader
+
+        loader.TaskFilterTrackProcessor(Cfg(None, None)).on_after_load_track(trk)
+        err = None
+    else:
+        trk, err = _spec_filter_once(ctx, case, filters, exclude, "")
+    impl = {"err": err} if err else {"r": [canon(ch.schedule) for ch in trk.challenges]}
+    mm = {"err": m["err"]} if "err" in m else {"r": m["r"]}
+    if mm != impl:
+        ctx.diff("specification read and filtered", mm, impl)
+    if "read" in m and m["read"] != read_impl:
+        ctx.diff("tasks as read from the specification (id, name, type)", m["read"], read_impl)
+    # ---- every operation type of the track (and its other spelling) as the only filter, include and exclude alternating
+    decl_types = sorted({_declared(case, t)[1] for c in case["challenges"] for t in _spec_leaves(c)})
+    sweep = decl_types + [x for x in (_respell(t) for t in decl_types) if x not in decl_types]
+    for i, ty in enumerate(sweep[:8]):
+        if ":" not in ty:
+            _spec_filter_once(ctx, case, ["type:" + ty], i % 2 == 1, ":type-sweep")
+            ctx.count("spec:type-sweep-filters")
+    ctx.sig(["spec", tags, "err" if err else "ok", len(case["challenges"])], nontrivial=bool(filters))
+
+
 STREAMS = [
     Stream("filter", gen, run, quick=6000, thorough=300000),
     Stream("filtered_race", gen_race, run_race, quick=160, thorough=60000, shards=16),
     Stream("filtered_track_prepares", gen_prepare, run_prepare, quick=320, thorough=20000, shards=16),
+    Stream("spec_filter", gen_spec, run_spec, quick=2400, thorough=120000, shards=8),
 ]
